@@ -53,3 +53,57 @@ func connectSetup(id string, ka uint16) []string {
 }
 
 func sortStrings(a []string) { sort.Strings(a) }
+
+// step is one part of a (possibly composite) event.
+type step struct {
+	kind string // C, B, X, T
+	raw  []byte
+	sn   refsn.Pkt
+	mq   refmqtt.Pkt
+}
+
+func steps(ev string) []step {
+	var out []step
+	i := strings.LastIndex(ev, "|")
+	for _, body := range strings.Split(ev[i+1:], "+") {
+		st := step{kind: body[:1]}
+		if st.kind == "C" || st.kind == "B" {
+			fmt.Sscanf(body[2:], "%x", &st.raw)
+			if st.kind == "C" {
+				st.sn, _ = refsn.Decode(st.raw)
+			} else {
+				st.mq, _, _ = refmqtt.Parse(st.raw)
+			}
+		}
+		out = append(out, st)
+	}
+	return out
+}
+
+// refPredef: reference lookup, client-specific entry first, else "*".
+func refPredef(t topics.PredefinedTopics, client string, id uint16) (string, bool) {
+	if m, ok := t[client]; ok {
+		if n, ok := m[id]; ok {
+			return n, true
+		}
+	}
+	if m, ok := t["*"]; ok {
+		if n, ok := m[id]; ok {
+			return n, true
+		}
+	}
+	return "", false
+}
+
+func mapKey(m map[uint16]string) string {
+	ids := make([]int, 0, len(m))
+	for k := range m {
+		ids = append(ids, int(k))
+	}
+	sort.Ints(ids)
+	s := "{"
+	for _, k := range ids {
+		s += fmt.Sprintf("%d:%q ", k, m[uint16(k)])
+	}
+	return s + "}"
+}
